@@ -59,11 +59,11 @@ pub fn areas() -> Vec<&'static str> {
         "c10",
         "c13",
         "c14",
+        "c16",
         "c17",
         "c18",
         "c19",
     ]
-    vec!["c16", "c17"]
 }
 
 /// Decode a hex string.
